@@ -66,6 +66,10 @@ CLAIMS = {
    technique="phase typestate over the call graph (pointer fields allocated in a later initialisation phase must not be dereferenced from an earlier one), call-order analysis of system_init, abstract evaluation of comparators / sort selection / list construction / index numbering, exhaustive small-domain evaluation of the merge predicates, error propagation",
    text="Decides the named clauses: no pointer field of loom/proc/thread/cpu allocated in init_end_system is dereferenced by code reachable from create_system (the crash of the metadata loader); system_init runs its six phases in order; by_pid/by_rank/by_tid/by_phyid/cmp_loom_rank order by their key and the sorts select them as documented; set_sort_criteria sorts by rank only when every loom has ranks; the virtual CPU follows the physical CPUs and global indices follow list order; load_appid, load_rank (16 cases) and load_cpus (6 cases) accept repeated attributes only when equal and reject contradictions, duplicate TIDs are refused, and these errors reach the exit status. Not decided: independence from the distribution of attributes over threads in general (a metamorphic property over inputs) and the uthash/utlist sort implementations.",
    design_ref="§4 C15"),
+ "C17": dict(
+   technique="writer/reader literal agreement with constant-folded key construction, abstract evaluation of the mark emitters and of mark_event / parse_mark / add_label / create_mark_type over their finite case spaces, constant checks of tracking modes and PRV type offset",
+   text="The keys the runtime writes for a mark type and label (snprintf evaluated on constant formats) and the keys/tokens the emulator reads must agree (ovni.mark.<t>.title / .chan_type in {single, stack} / .labels.<v>), with the right token per flag and the right channel type per token; ovni_mark_push/pop/set must emit OM[ OM] OM= with (i64 value, i32 type), the catalogue must declare that shape, and mark_event must require 12 bytes, read offsets 0 and 8 and map [ ] = to push/pop/set on the type's channel; zero values, out-of-range / undefined / redefined types and title, channel-type and label conflicts must be refused on the side that sees them; types show under PRV 100 + type, threads tracked while ACTIVE, CPUs for the RUNNING thread. Not decided: merging of definitions across threads inside the hash tables (data).",
+   design_ref="§4 C17"),
  "C18": dict(
    technique="abstract interpretation of handler dispatch over all 65536 (category,value) codes per model vs. the constant event catalogue (clang AST/CFG facts)",
    text="Exhaustive over the finite code space: for each of the 8 models the set of (c,v) codes the event hook can accept is computed exactly from the CFGs and constant tables and compared with the declared catalogue in both directions; declared payload shapes are bound to ev->payload_size/is_jumbo and every declared event must still be accepted and every constant-offset payload read must lie inside the declared payload; catalogue self-consistency is evaluated with ev_spec.c's grammar. Not decided: ovnidump's formatted output for all argument values.",
